@@ -183,4 +183,5 @@ def check_gas(p, pp, ALLOW, CFG):
     if not any(c[0] == d and c[1] == "Some" for c in p.conds):
         return "unlisted token paid although no default gas limit is configured"
     want = ("variant", OPTION, "Some", (("0", ("vfield", d, "Some", "0")),))
-    return None if g == want else "unlisted token paid with gas limit %s, not Some(default)" % show(g)[:120]
+    # `d` itself, decided Some on this path, is the same value as Some(d's payload)
+    return None if g in (want, d) else "unlisted token paid with gas limit %s, not Some(default)" % show(g)[:120]
